@@ -10,6 +10,7 @@ import (
 	"github.com/mimiro-io/datahub/internal/server"
 	"github.com/mimiro-io/datahub/internal/service/store"
 	"github.com/mimiro-io/datahub/internal/service/types"
+	"github.com/mimiro-io/datahub/internal/verifhook"
 	"go.uber.org/zap"
 )
 
@@ -31,6 +32,7 @@ func (c *CompactionWorker) CompactAsync(datasetID string, strategy CompactionStr
 	if !c.running {
 		c.running = true
 		go func() {
+			verifhook.Go(c.bs.GetDB(), "compaction")
 			defer func() {
 				c.running = false
 			}()
@@ -157,6 +159,7 @@ func flushDeletes(bs store.BadgerStore, ops *compactionInstruction, finalFlush b
 	if !finalFlush && len(ops.DeleteKeys) < strategy.flushThreshold() {
 		return false, nil
 	}
+	verifhook.Point(bs.GetDB(), "compact.beforeFlush")
 	err := bs.GetDB().Update(func(txn *badger.Txn) error {
 		bufferedKeys, err := strategy.flush(txn)
 		if err != nil {
@@ -190,6 +193,7 @@ func flushDeletes(bs store.BadgerStore, ops *compactionInstruction, finalFlush b
 	if err != nil {
 		return false, err
 	}
+	verifhook.Point(bs.GetDB(), "compact.afterFlush")
 	return true, nil
 }
 
